@@ -61,7 +61,8 @@ def run_one(mid, patch, props, runs=None, workers=4):
                        PHYLIB_VERIF_EVIDENCE_DIR=str(root / 'evidence'),
                        PHYLIB_VERIF_REPLAY_DIR=str(root / 'replays'),
                        PHYLIB_VERIF_SCRATCH=str(root / 'scratch'),
-                       VERIF_WORKERS=str(workers), VERIF_TIER='quick')
+                       VERIF_WORKERS=str(workers), VERIF_TIER='quick',
+                       VERIF_STOP_ON_VIOLATION='1')
             cmd = [str(VERIF / 'vcheck'), 'run', prop, '--tier', 'quick']
             if runs:
                 cmd += ['--runs', str(runs)]
@@ -103,7 +104,8 @@ def run_seeded(only=None):
             if only and d.name not in only.split(',') and m['property'] not in only.split(','):
                 continue
             props = m.get('checks', [m['property']])
-            items.append((d.name, d / 'patch.diff', props, False))
+            items.append((d.name, d / 'patch.diff', props,
+                          'documented' if m.get('expected_undetected') else False))
     return _run_items(items, 'seeded')
 
 
@@ -122,7 +124,10 @@ def _run_items(items, title):
             missed += 1
             continue
         for prop, pr in r['props'].items():
-            if r['negative_control']:
+            if r['negative_control'] == 'documented':
+                status = ('caught' if pr['caught'] else
+                          'not-caught(documented: outside the statement)')
+            elif r['negative_control']:
                 status = 'quiet(ok)' if pr['exit'] == 0 else 'FALSE-ALARM(exit=%s)' % pr['exit']
                 if pr['exit'] != 0:
                     missed += 1
